@@ -72,6 +72,16 @@ func (st *story) op(format string, a ...any) {
 	}
 	st.emit(line)
 	st.n++
+	if strings.HasPrefix(line, "autota restart") && st.r.Chance(2, 3) {
+		// the new process exists for a while before its first refresh (middleware start-up,
+		// root priming) and validates with its start-up trust set
+		st.emit("autota boot")
+		st.n++
+		st.alive = true
+		for i := st.r.Intn(3); i > 0; i-- {
+			st.probe()
+		}
+	}
 }
 
 // probe: a validated client lookup with whatever the live trust set is now; the root serves its
